@@ -115,16 +115,34 @@ def shadow_init(chk, f):
     cname = f.cls.name if f.cls is not None else None
     attr = SHADOWS.get(cname)
     creates = creation_calls(f)
-    if attr is None or not creates:
+    # view casting is the other way to make the instance: `obj = X.view(subtype)` shares X's memory when X is a name; `X.copy().view(subtype)` owns fresh memory
+    views = [s_ for s_ in ast.walk(f.node) if isinstance(s_, ast.Assign) and isinstance(s_.value, ast.Call) and isinstance(s_.value.func, ast.Attribute)
+             and s_.value.func.attr == "view" and len(s_.targets) == 1 and isinstance(s_.targets[0], ast.Name)]
+    if attr is None or not (creates or views):
         return
     bufs = {ast.unparse(c.args[3]) for c in creates if len(c.args) > 3}
+    objs = set()
+    for v in views:
+        objs.add(v.targets[0].id)
+        if isinstance(v.value.func.value, ast.Name):
+            bufs.add(v.value.func.value.id)
     binds = [s_ for s_ in ast.walk(f.node) if isinstance(s_, ast.Assign) and any(isinstance(t, ast.Attribute) and t.attr == attr for t in s_.targets)]
     site = "%s::%s" % (f.ref, attr)
-    if binds and all(ast.unparse(b.value) in bufs for b in binds):
-        chk.record("SHADOW-INIT", site, "obj.%s is bound to the buffer handed to ndarray.__new__" % attr)
+
+    def _is_obj(v):
+        # the instance itself or a plain-ndarray view of it: obj, obj.view(np.ndarray), np.asarray(obj)
+        if isinstance(v, ast.Name):
+            return v.id in objs
+        if isinstance(v, ast.Call) and isinstance(v.func, ast.Attribute) and v.func.attr == "view":
+            return _is_obj(v.func.value)
+        if isinstance(v, ast.Call) and ast.unparse(v.func).split(".")[-1] == "asarray" and v.args and not v.keywords:
+            return _is_obj(v.args[0])
+        return False
+    if binds and all(ast.unparse(b.value) in bufs or _is_obj(b.value) for b in binds):
+        chk.record("SHADOW-INIT", site, "obj.%s is bound to the memory the instance is made over (buffer of ndarray.__new__ / base of the view cast)" % attr)
     else:
         why = ("the constructor never binds obj.%s" % attr) if not binds else \
-              ("obj.%s is bound to `%s`, not to the array handed to ndarray.__new__ (%s): the object's value and what its methods read differ from the start" % (attr, ast.unparse(binds[0].value)[:40], ", ".join(sorted(bufs))))
+              ("obj.%s is bound to `%s`, not to the memory the instance is made over (%s): the object's value and what its methods read are two arrays - equal at first when one is a copy of the other, apart after the first in-place update" % (attr, ast.unparse(binds[0].value)[:40], ", ".join(sorted(bufs)) or "a fresh copy, view-cast"))
         chk.record("SHADOW-INIT", site, "shadow attribute bound to the construction buffer", verdict="VIOLATION", detail=why)
         chk.finding("SHADOW-INIT", f.module.rel, f.qname, "binding of obj.%s" % attr, why, line=f.node.lineno)
 
